@@ -120,6 +120,9 @@ def gen_cases(rng, n):
               # alone, as a coefficient, as an argument, as an exponent
               "1e-10 * x", "2.5e+20 * N", "f(1.0e+30, y)", "1e100", "x + 1e16", "3e-7 * x + 1e-20", "g(x, 1.25e-10)", "x ^ 1e-10",
               "1.5e-300 * y", "6.02e23 * x", "max(x, 1e20)", "1e-6 + 1e-5 * x", "123456789.0 * x", "1e15 * x", "x / 4e-30",
+              # built-ins applied to a PRODUCT with a numeric coefficient, still symbolic (the call stays the call it is)
+              "sgn(-3 * x)", "sgn(x / 2)", "N * sgn(y / 2) + 1", "sgn(2 * (x - y) * N)", "heaviside(-2 * x)", "abs(-3 * x * y)", "nlz(2 * x)",
+              "floor(-x / 2)", "frac(3 * x)", "re(2 * x) + im(-y / 3)", "round(-5 * x / 2)",
               # expressions that ARE one lone constant (or collapse to one on construction)
               "PI", "exp(1)", "x * PI / x", "2 * PI / 2", "log(exp(1)) * exp(1)", "oo", "-oo"]:
         out.append({"text": t})
